@@ -365,6 +365,14 @@ def run(ctx):
                              for p in rets)
                 exh = all(any(e.kind == "guard" and e.b == "None" for e in p.events[:3]) for p in rets)
                 ok_loop = it_ok and ret_ok and exh
+    if len(loops) == 1 and ok_loop:
+        # ... on every way out: no return gets round the loop (a "nothing to escape" fast path decides with a second,
+        # hand-written copy of the table which characters are special)
+        for p in mir.walk_function(ab):
+            if p.outcome[0] != "return":
+                continue
+            if not any(e.kind == "loop" and e.a == loops[0] for e in p.events) or [e for e in p.events if e.kind == "guard" and not (isinstance(e.a, tuple) and e.a[0] == "variantof")]:
+                ok_loop = False
     if not loops:
         # the same as one expression:  text.chars().map(escape_one_char).collect::<String>()   (collecting Strings into a
         # String concatenates them in iteration order; the types admit nothing else)
